@@ -47,7 +47,7 @@ pub fn tier(name: &str) -> Tier {
         return Tier {
             miri: MiriCfg { seeds: 0, calls: 0, threads: 0, timeout_s: 0 },
             name: "ovf",
-            sizes: PoolSizes { gen_per_ev: 600, cross_texts: 110, malformed_per_ev: 60, extreme_per_ev: 100, sibling_families_per_ev: 40, pair_samples_per_ev: 120, all_pairs: false, max_corpus: 300 },
+            sizes: PoolSizes { gen_per_ev: 600, cross_texts: 110, malformed_per_ev: 60, extreme_per_ev: 100, sibling_families_per_ev: 40, pair_samples_per_ev: 120, all_pairs: false, max_corpus: 300, rel_families_per_ev: 40 },
             recheck_every: 0,
             det_seeds: 40,
             short_runs: 500_000,
@@ -62,7 +62,7 @@ pub fn tier(name: &str) -> Tier {
         Tier {
             miri: MiriCfg { seeds: 48, calls: 80, threads: 3, timeout_s: 1500 },
             name: "thorough",
-            sizes: PoolSizes { gen_per_ev: 4000, cross_texts: 1200, malformed_per_ev: 600, extreme_per_ev: 500, sibling_families_per_ev: 300, pair_samples_per_ev: 0, all_pairs: true, max_corpus: 2000 },
+            sizes: PoolSizes { gen_per_ev: 4000, cross_texts: 1200, malformed_per_ev: 600, extreme_per_ev: 500, sibling_families_per_ev: 300, pair_samples_per_ev: 0, all_pairs: true, max_corpus: 2000, rel_families_per_ev: 300 },
             recheck_every: 1,
             det_seeds: 5000,
             short_runs: 3_000_000,
@@ -76,7 +76,7 @@ pub fn tier(name: &str) -> Tier {
         Tier {
             miri: MiriCfg { seeds: 4, calls: 30, threads: 3, timeout_s: 150 },
             name: "quick",
-            sizes: PoolSizes { gen_per_ev: 600, cross_texts: 110, malformed_per_ev: 60, extreme_per_ev: 100, sibling_families_per_ev: 40, pair_samples_per_ev: 120, all_pairs: false, max_corpus: 300 },
+            sizes: PoolSizes { gen_per_ev: 600, cross_texts: 110, malformed_per_ev: 60, extreme_per_ev: 100, sibling_families_per_ev: 40, pair_samples_per_ev: 120, all_pairs: false, max_corpus: 300, rel_families_per_ev: 40 },
             recheck_every: 7,
             det_seeds: 200,
             short_runs: 100_000,
@@ -815,6 +815,9 @@ pub fn check(o: &CheckOpts) -> i32 {
         4,
         false,
     );
+    // ---- crowd: K callers parked mid-call at once (K around 2..32), further callers nested inside, random finishing order
+    let crowd_n = ((if t.name == "thorough" { 30_000.0 } else { 2500.0 }) * o.scale) as usize;
+    let crowd = run_batch("crowd_overflow", &pool, &ix, o.seed, 4, RunKind::Crowd, crowd_n, w, Duration::from_millis(6000), Some(Instant::now() + Duration::from_secs(if t.name == "thorough" { 150 } else { 12 })), false, 0, 4, false);
     // ---- stall-and-wrap: a caller parked mid-call while another makes 2^8 / 2^16 (+ d) distinct calls of the same
     //      evaluator, over a filler pool of trivially distinct formulas ("<i>+@")
 
@@ -861,6 +864,7 @@ pub fn check(o: &CheckOpts) -> i32 {
         (short, 1, RunKind::Short, None),
         (wide, 2, RunKind::Wide, None),
         (long, 3, RunKind::Long { calls: long_calls }, None),
+        (crowd, 4, RunKind::Crowd, None),
     ];
     for (b, pi, stream, kind) in stall_batches {
         all_batches.push((b, stream, kind, Some(pi)));
@@ -1266,7 +1270,7 @@ pub fn selftest(o: &CheckOpts, seeds: usize) -> i32 {
     let ix = workload::index_pool(&mut pool);
     let tmo = Duration::from_millis(3000);
     let mut bad = 0;
-    for (stream, kind, n) in [(21u64, RunKind::Short, seeds), (22, RunKind::Wide, seeds / 10), (23, RunKind::Long { calls: 500 }, 32)] {
+    for (stream, kind, n) in [(21u64, RunKind::Short, seeds), (22, RunKind::Wide, seeds / 10), (23, RunKind::Long { calls: 500 }, 32), (24, RunKind::Crowd, seeds / 10)] {
         let a = run_batch("a", &pool, &ix, o.seed, stream, kind, n, o.workers, tmo, None, true, usize::MAX, u32::MAX, false);
         let b = run_batch("b", &pool, &ix, o.seed, stream, kind, n, 5, tmo, None, true, usize::MAX, u32::MAX, false);
         let c = run_batch("c", &pool, &ix, o.seed, stream, kind, n / 10, 1, tmo, None, true, 0, u32::MAX, false);
